@@ -68,15 +68,14 @@ prop("C19",
      outside="index sizes >= 50 (shift >= 64; no such file can exist); the callers' confirmation of a candidate against the stored key tail (C09/C14); non-x86_64 dispatch",
      assumptions=["PSRLQ model equals the hardware instruction (validated at setup; every counterexample is replayed on the real intrinsic)"])
 add("C19", H("index", "c19_l1_scalar_match_implies_fast_match", "quick", ["C19.L1"], "bits:u8 in 16..=49, slot content:u64, key:u64", "loop-free; all values", 120, 2))
-_c19_cost = {0: (3000, 14), 1: (2700, 13), 2: (2400, 12), 3: (2100, 11), 4: (1800, 10), 5: (1700, 10), 6: (1500, 9), 7: (1300, 8),
-             8: (1100, 7), 9: (900, 7), 10: (800, 6), 11: (700, 6), 12: (600, 5), 13: (500, 5), 14: (400, 4), 15: (300, 4)}
+_c19_cost = {0: (9000, 16), 1: (9000, 15), 2: (8000, 14), 3: (8000, 13), 4: (6000, 12), 5: (6000, 12), 6: (5400, 11), 7: (5400, 10),
+             8: (4500, 9), 9: (3600, 9), 10: (3000, 8), 11: (2400, 8), 12: (1800, 7), 13: (1500, 6), 14: (1200, 5), 15: (900, 4)}
 for q in range(16):
     tmo, mem = _c19_cost[q]
-    tier = "quick" if q in (12, 14, 15) else "thorough"
+    tier = "quick" if q in (13, 14, 15) else "thorough"
     add("C19", H("index", "c19_sse2_q%d" % q, tier, ["C19.A1", "C19.A2", "C19.A3", "C19.A4"],
                  "page:[u64;64], key:u64, offset in group:0..4, bits:u8 in 16..=40; start positions %d..%d" % (4 * q, 4 * q + 3),
-                 "unwind 65; start group %d concrete" % q, tmo, mem, unwind=65, stubs=PSRLQ,
-                 rotate=("c19_rot" if q in (9, 10, 11, 13) else None)))
+                 "unwind 65; start group %d concrete" % q, tmo, mem, unwind=65, stubs=PSRLQ))
 for q in (8, 12, 15):
     add("C19", H("index", "c19_sse2_big_q%d" % q, "thorough", ["C19.A1", "C19.A2", "C19.A3", "C19.A4"],
                  "page, key, offset in group; bits:u8 in 41..=49", "unwind 65; start group %d" % q, 1500, 8, unwind=65, stubs=PSRLQ))
@@ -108,3 +107,121 @@ for b, tier in ((16, "quick"), (24, "thorough"), (40, "quick")):
                  unwind=66, stubs=ENV + CAPIDX, replay="solver-trace-only"))
     add("C09", H("index", "c09_p4_remove_b%d" % b, tier, ["C09.P4"], "page, key, slot:0..64", "bits=%d; unwind 66" % b, 900, 6,
                  unwind=66, stubs=ENV + CAPIDX, replay="solver-trace-only"))
+
+# ======================================================================================== C07
+prop("C07",
+     functions=["ValueTable::{change_ref, write_inc_ref, write_dec_ref, write_remove_plan}", "table::Entry::{read_rc, write_rc, read_size, is_tombstone, is_multi}"],
+     bounds="every u32 counter value; 64-byte entries (complete entry of 40 payload bytes / multipart head), entry in the record overlay or on disk; one operation",
+     outside="commit-overlay interplay while queued, restarts, btree columns' counts, iter_column_while, column-level histories (DESIGN 3.7)",
+     assumptions=[])
+for fn in ("c07_r1_change_ref_overlay", "c07_r1_change_ref_disk", "c07_r1_change_ref_multihead", "c07_r1_change_ref_tombstone"):
+    add("C07", H("table", fn, "quick", ["C07.R1"], "counter:u32, delta in {+1,-1}, all other entry bytes", "entry 64 bytes; unwind 66", 900, 8, unwind=66,
+                 stubs=ENV + OVERLAY + TFILE, replay="playback-native-env"))
+
+# ======================================================================================== C14
+prop("C14",
+     functions=["ValueTable::{next_free, read_next_free, clear_slot, clear_chain, write_remove_plan, complete_plan}"],
+     bounds="value table of 6 slots x 32 bytes with arbitrary disk content constrained only by the free-list invariant; one operation per harness (inductive step)",
+     outside="btree reachability, ref-count table vs parent counts, recovery, growth leftovers, iteration; column-level index<->value consistency (DESIGN 3.7)",
+     assumptions=["pre-state satisfies the free-list representation invariant (acyclic, in range, tombstones only)"])
+add("C14", H("table", "c14_t1_next_free_step", "quick", ["C14.T1", "C14.T2h"], "disk:[u8;192], filled, last_removed, flags", "6 slots x 32 bytes; unwind 200", 900, 8,
+             unwind=200, stubs=ENV + OVERLAY + TFILE, replay="playback-native-env"))
+add("C14", H("table", "c14_t2_clear_slot_step", "quick", ["C14.T2"], "disk:[u8;192], filled, last_removed, freed slot", "6 slots x 32 bytes; unwind 200", 900, 8,
+             unwind=200, stubs=ENV + OVERLAY + TFILE, replay="playback-native-env"))
+add("C14", H("table", "c14_twin_must_fail", "quick", [], "as T1", "must-fail twin", 900, 8, twin=True, unwind=200, stubs=ENV + OVERLAY + TFILE))
+
+# ======================================================================================== C13
+prop("C13",
+     functions=["LogReader::{next, read}", "ValueTable::{validate_plan, enact_plan}", "IndexTable::{validate_plan, skip_plan}", "crc32fast (portable path)"],
+     bounds="one next() on <= 16 arbitrary bytes with arbitrary truncation; CRC gate over a record with 2 / 8 payload bytes",
+     outside="multiple log files and their ordering at Log::open, stale generations, zero-length files (directory level, FFI); records longer than the bound",
+     assumptions=[])
+FILEREAD = ["stub: <File as Read>::read -> bytes of a static buffer with symbolic content and symbolic logical length (EOF past the end)",
+            "stub: crc32fast::Hasher::internal_new_specialized -> None (portable table-driven CRC, real code)"]
+add("C13", H("log", "c13_p1a_parser_one_action", "quick", ["C13.P1"], "16 log bytes, logical length 0..=16, validate flag", "one action; unwind 12", 900, 8,
+             unwind=12, stubs=ENV + FILEREAD, replay="solver-trace-only"))
+add("C13", H("log", "c13_p1b_crc_gate_n2", "quick", ["C13.P1"], "record id, table, index, 2 payload bytes, stored checksum", "record of 27 bytes; real CRC; unwind 40", 900, 8,
+             unwind=40, stubs=ENV + FILEREAD, replay="solver-trace-only"))
+add("C13", H("log", "c13_p1b_crc_gate_n8", "thorough", ["C13.P1"], "record id, table, index, 8 payload bytes, stored checksum", "record of 33 bytes; real CRC; unwind 40", 1800, 12,
+             unwind=40, stubs=ENV + FILEREAD, replay="solver-trace-only"))
+add("C13", H("log", "c13_twin_must_fail", "quick", [], "16 log bytes", "must-fail twin", 900, 8, twin=True, unwind=12, stubs=ENV + FILEREAD))
+
+# ======================================================================================== C12
+prop("C12",
+     functions=["Log::flush_one", "Log::read_next", "Log::clean_logs"],
+     bounds="struct-literal Log with 0-1 appending file, 0-1 queued file, 0-2 files to clean; flags, sizes and failure choices symbolic",
+     outside="msync/fsync semantics, which pages reach the disk (kernel), TableFile::grow's flush of the old mapping (mmap FFI), sync_wal=false configurations, "
+             "thread interleavings between the commit, flush and cleanup workers",
+     assumptions=["File::{sync_data, sync_all, set_len, seek} replaced by event-recording models that may fail nondeterministically"])
+FEV = ["stub: File::{sync_data, sync_all, set_len}, <File as Seek>::seek -> event-recording, nondeterministically failing models",
+       "stub: <OwnedFd as Drop>::drop -> no-op (harness fds are fabricated, never opened)"]
+add("C12", H("log", "c12_o1_flush_one_syncs_before_handover", "quick", ["C12.O1"], "sync flag, size, threshold, sync failure", "one call", 600, 4, unwind=6, stubs=ENV + FEV, replay="solver-trace-only"))
+add("C12", H("log", "c12_o2_read_next_only_from_read_queue", "quick", ["C12.O2"], "12 log bytes, length, queue shape, validate", "one call", 600, 4, unwind=12, stubs=ENV + FEV + FILEREAD, replay="solver-trace-only"))
+for nq, mx, tier in ((0, 1, "thorough"), (1, 0, "thorough"), (1, 1, "quick"), (2, 1, "quick"), (2, 2, "quick"), (2, 3, "thorough")):
+    add("C12", H("log", "c12_o3a_clean_logs_q%d_m%d" % (nq, mx), tier, ["C12.O3"], "%d dirty log(s), max_count %d, failure choices symbolic" % (nq, mx), "one call", 900, 6,
+                 unwind=8, stubs=ENV + FEV, replay="solver-trace-only"))
+
+# ---- C13.P2
+RDSTUB = ["stub: LogReader::read -> length-accounting model (advances the position, fails past the logical end, copies only the first 16 payload bytes)",
+          "stub: TableFile::write_at -> records (offset, length) of each call"]
+add("C13", H("log", "c13_p2_value_validate_enact_e64", "quick", ["C13.P2"], "16 head bytes (size field/markers), available bytes 0..=0x8100, multipart, rc flags, slot 0..8",
+             "entry size 64; unwind 20", 1500, 20, unwind=20, stubs=ENV + RDSTUB, replay="solver-trace-only"))
+add("C13", H("log", "c13_p2_value_validate_enact_e4096", "thorough", ["C13.P2"], "as e64", "entry size 4096 (the real multipart tier); unwind 20", 2400, 24, unwind=20,
+             stubs=ENV + RDSTUB, replay="solver-trace-only"))
+PROPS["C13"]["functions"] += ["ValueTable::validate_plan", "ValueTable::enact_plan"]
+
+# ======================================================================================== C06
+prop("C06",
+     functions=["ValueTable::{value_size, overwrite_chain, write_insert_plan, write_replace_plan, clear_chain, clear_slot, next_free, read_next_part, for_parts, query, size, write_remove_plan}",
+                "table::Entry header readers/writers", "TableKey::{write, fetch, compare, encoded_size}", "Column::compress (tier selection)", "column::SIZES"],
+     bounds="chains: multipart table with 32-byte parts (22 payload bytes per head/continuation, 30 in the tail), value lengths 0..=96 enumerated (boundaries in quick, all in thorough), "
+            "contents/flags symbolic; tier selection: the real 255-entry SIZES table, Column::compress over a 3-table slice {32, 64, multipart} with codec replaced by a length model",
+     outside="the codecs themselves (lz4 FFI, snap), values of 5 or more parts, the real 4096-byte multipart entry size, column-level move between tiers, "
+             "pre-states with a non-empty free list for chain writes",
+     assumptions=["Compress::compress replaced by a model returning an output of arbitrary (enumerated) length"])
+add("C06", H("table", "c06_s1a_value_size_per_tier", "quick", ["C06.S1"], "rc flag, key kind; all 255 tiers (concrete loop)", "unwind 260", 900, 6, unwind=260, stubs=[]))
+add("C06", H("column", "c06_s1b_compress_tier_a", "quick", ["C06.S1"], "(value length, codec output length) from 10 boundary pairs; threshold:u32, rc, key kind symbolic", "3 tables {32,64,multipart}", 900, 6,
+             unwind=102, stubs=["stub: Compress::compress -> output of harness-chosen length"]))
+add("C06", H("column", "c06_s1b_compress_tier_b", "thorough", ["C06.S1"], "10 more (length, output length) pairs", "3 tables", 900, 6, unwind=102,
+             stubs=["stub: Compress::compress -> output of harness-chosen length"]))
+add("C06", H("table", "c06_s2_insert_read_boundaries", "quick", ["C06.S2", "C06.S4"], "value bytes [u8;100], compressed flag; length in {0,1,30,31,52,53,74,75,96}", "32-byte parts, <= 4 parts; unwind 102", 1800, 10,
+             unwind=102, stubs=ENV + OVERLAY + TFILE, replay="playback-native-env"))
+add("C06", H("table", "c06_s2_insert_read_boundaries_rc", "quick", ["C06.S2", "C06.S4"], "as above on a ref-counted table; length in {0,26,27,48,49,70,71}", "32-byte parts; unwind 102", 1800, 10,
+             unwind=102, stubs=ENV + OVERLAY + TFILE, replay="playback-native-env"))
+for i in range(8):
+    add("C06", H("table", "c06_s2_insert_read_l%d" % i, "thorough", ["C06.S2", "C06.S4"], "value bytes, compressed flag; 11 lengths per harness (all lengths 0..=96 over the family)", "32-byte parts; unwind 102", 2400, 10,
+                 unwind=102, stubs=ENV + OVERLAY + TFILE, replay="playback-native-env"))
+add("C06", H("table", "c06_s3_replace_boundaries", "quick", ["C06.S3", "C06.S2"], "old/new value bytes, flags; (old,new) length in 8 boundary pairs", "32-byte parts; unwind 102", 2400, 12,
+             unwind=102, stubs=ENV + OVERLAY + TFILE, replay="playback-native-env"))
+add("C06", H("table", "c06_s3_replace_boundaries_rc", "thorough", ["C06.S3", "C06.S2"], "as above, ref-counted table, 5 pairs", "32-byte parts; unwind 102", 2400, 12,
+             unwind=102, stubs=ENV + OVERLAY + TFILE, replay="playback-native-env"))
+add("C06", H("table", "c06_s3_replace_more", "thorough", ["C06.S3", "C06.S2"], "8 more (old,new) pairs", "32-byte parts; unwind 102", 2400, 12,
+             unwind=102, stubs=ENV + OVERLAY + TFILE, replay="playback-native-env"))
+
+# ---- C07.R2
+for fn in ("c07_r2_dispatch_set", "c07_r2_dispatch_reference", "c07_r2_dispatch_dereference", "c07_r2_dispatch_tree_ops"):
+    add("C07", H("column", fn, "quick", ["C07.R2"], "counter:u32>=1, key, old/new value bytes, ref_counted and preimage flags", "existing 8-byte value in a 64-byte tier; one operation", 1200, 10,
+                 unwind=102, stubs=ENV + OVERLAY + TFILE, replay="playback-native-env"))
+for fn in ("c07_r2_dispatch_tree_ops2", "c07_r2_dispatch_tree_ops3"):
+    add("C07", H("column", fn, "thorough", ["C07.R2"], "as above", "one operation", 1200, 10, unwind=102, stubs=ENV + OVERLAY + TFILE, replay="playback-native-env"))
+PROPS["C07"]["functions"] += ["Column::write_existing_value_plan (all six Operation arms)"]
+
+# ======================================================================================== C01
+prop("C01",
+     functions=["column::hash_key (uniform v8 siphash branch, v<=5 / v6-7 branches, Blake2b branch)"],
+     bounds="uniform keys of length 32..=48 (enumerated), any salt with salt[0] != 0, any bytes; hashed keys of length {0,1,31,32,33,40}",
+     outside="everything about when a layer hands over to the next (C05), clean reopen, multi-column transactions, compression; the pipeline as a whole",
+     assumptions=[])
+add("C01", H("column", "c01_k1_hash_key_uniform_32_36", "quick", ["C01.K1"], "key bytes [u8;48], salt [u8;32]; length in 32..=36", "unwind 50", 900, 6, unwind=50))
+add("C01", H("column", "c01_k1_hash_key_uniform_37_48", "quick", ["C01.K1"], "key bytes, salt; length in {37,39,40,41,47,48}", "unwind 50", 900, 6, unwind=50))
+add("C01", H("column", "c01_k1_hash_key_uniform_old_versions", "quick", ["C01.K1"], "key bytes, salt, length 32..=40, db version 4..=7", "unwind 50", 900, 6, unwind=50))
+add("C01", H("column", "c01_k1_hash_key_hashed_total", "thorough", ["C01.K1"], "key bytes, salt; length in {0,1,31,32,33,40}", "unwind 140", 1800, 10, unwind=140))
+
+# ======================================================================================== C10
+prop("C10",
+     functions=["column::unpack_node_data", "column::unpack_node_children", "column::packed_node_size"],
+     bounds="node byte strings of length <= 40 with (length, child count) enumerated over 20 pairs incl. count 255; all other bytes symbolic",
+     outside="recursive dereference walk over a stored tree (needs TreeReader / Arc<DbInner>), deferral (C11), root counts through the pipeline, multi-part nodes",
+     assumptions=[])
+add("C10", H("column", "c10_n1_unpack_a", "quick", ["C10.N1"], "node bytes [u8;40]; (length, count) in 10 pairs", "unwind 42", 900, 6, unwind=42, stubs=FMT_STUB))
+add("C10", H("column", "c10_n1_unpack_b", "quick", ["C10.N1"], "node bytes; 10 more pairs incl. count 255/128", "unwind 42", 900, 6, unwind=42, stubs=FMT_STUB))
